@@ -140,7 +140,12 @@ pub fn run(rng: &mut Rng, count: usize, thorough: bool, extra: &[String], out: &
             if produced >= count {
                 break;
             }
-            let g = if rng.chance(1, 40) {
+            let g = if rng.chance(1, 8) {
+                // a LARGE framework (65-140 arguments, id-aliasing pairs of attackers: gen.rs): clause sets compared with
+                // the model at any size; judged by the polynomial CNF oracle of checks/C10.py
+                let n = rng.range(65, 140);
+                gen_large(rng, n)
+            } else if rng.chance(1, 40) {
                 // a small DENSE framework: the exp encoder's cartesian product gets into the thousands (6 arguments
                 // with 5 attackers each: 5^5 = 3125 clauses per argument; 7 arguments: up to 6^6) - size-dependent
                 // slips of that encoder only show there; the all-models oracle still applies (no auxiliary variables)
